@@ -25,10 +25,13 @@ EXPLANATION = (
 
 class C38(SimSpec):
     prop_id = "C38"
-    model_vo = ["theories/Sim/Run.vo"]
+    model_vo = ["theories/Sim/Run.vo", "theories/Sim/Log.vo"]
     props_vo = "theories/Props/C38.vo"
-    theorems = ["C38_can_run_oracle_independent", "C38_readiness_oracle_independent"]
-    level = "exploration"
+    imports = ("From Coq Require Import List NArith String.\nFrom HV Require Import Sim.Model Sim.Run Sim.Log.\n"
+               "Import ListNotations.")
+    theorems = ["C38_can_run_oracle_independent", "C38_readiness_oracle_independent",
+                "C38_run_ignores_unused_decisions", "C38_model_run_is_a_function"]
+    level = "other"
     harness_shards = 2
     trusted_base = ["coqc 8.16.1 kernel", "Gallina model coq/theories/Sim/Model.v",
                     "harness h_sim (scripted driver; bolero ByteSliceDriver as in fuzz_repro); verif_run_hooks_logged hook"]
@@ -83,14 +86,13 @@ class C38(SimSpec):
             return 3
         logs = [json.dumps(r, sort_keys=True) for r in runs + fresh[:1]]
         replay_bad = 0 if all(l == logs[0] for l in logs) else 2
-        if case["k"] == "bytes":
-            return replay_bad
+        # every component of the implementation's log (incl. the decision-log text) against the
+        # model's, for the scripted driver and for the recorded decisions of the real byte driver
         inner = {k: v for k, v in case.items() if k != "reps"}
-        t = sim.tick_term(inner, runs[0])
+        t = sim.log_term(inner, runs[0])
         if isinstance(t, int):
             return t | replay_bad
-        # bit 0 from the model comparison only; the C36 bit of run_trounds is masked out
-        return "(N.land %s 1 + %d)" % (t, replay_bad)
+        return "(%s + %d)" % (t, replay_bad)
 
     def shrink(self, case):
         for i in range(len(case["rounds"]) - 1, 0, -1):
